@@ -8,6 +8,7 @@ import (
 	"go/token"
 	"go/types"
 	"math/big"
+	"regexp"
 	"sort"
 	"strings"
 
@@ -63,6 +64,7 @@ type Obligation struct {
 	Model   string
 	Output  string
 	Known   string // known-finding id if matched
+	smtText string
 }
 
 type State struct {
@@ -127,6 +129,14 @@ type VC struct {
 	usedAssumptions map[string]bool
 	maxPaths int
 	noDefine int
+	pureCache map[string][]Val
+	divCache map[string]Term
+	divAsTerm bool
+	declCache []declInfo
+	declNames map[string]bool
+	trivial []*Obligation
+	initDone map[*ssa.Package]bool
+	initRunning *ssa.Package
 	npaths   int
 	steps    int
 }
@@ -134,7 +144,7 @@ type VC struct {
 func newVC(eng *Engine, mode Mode) *VC {
 	vc := &VC{eng: eng, mode: mode, declared: map[string]bool{}, cellType: map[*Cell]types.Type{},
 		globals: map[*ssa.Global]*Cell{}, funcSyms: map[string]bool{}, strLits: map[string]Term{},
-		usedAssumptions: map[string]bool{}, maxPaths: 20000}
+		usedAssumptions: map[string]bool{}, maxPaths: 20000, initDone: map[*ssa.Package]bool{}, declNames: map[string]bool{}}
 	vc.declareSort("Err")
 	vc.declareSort("Str")
 	vc.decl("(declare-const err_nil Err)")
@@ -901,7 +911,20 @@ func (vc *VC) addObligation(st *State, kind, label, site string, goal Term, prop
 	if vc.dry > 0 {
 		return
 	}
-	if goal.IsTrue() || st.Infeasible() {
+	if st.Infeasible() {
+		return
+	}
+	if goal.IsTrue() {
+		if kind == "post" || kind == "lemma" || kind == "inv-init" || kind == "inv-pres" {
+			vc.trivial = append(vc.trivial, &Obligation{Func: vc.curFunc, Kind: kind, Label: label, Mode: vc.mode.Name, Props: props,
+				Name: fmt.Sprintf("%s#%s:%s", vc.curFunc, kind, label), Result: "unsat", Solver: "vcgo-simplifier", vc: vc, Goal: goal})
+		}
+		return
+	}
+	if len(goal.Conj) > 1 && len(goal.Conj) <= 64 && (kind == "post" || kind == "lemma" || kind == "inv-init" || kind == "inv-pres") {
+		for i, c := range goal.Conj {
+			vc.addObligation(st, kind, fmt.Sprintf("%s.%d", label, i+1), site, c, props)
+		}
 		return
 	}
 	o := &Obligation{
@@ -917,26 +940,213 @@ func (vc *VC) addObligation(st *State, kind, label, site string, goal Term, prop
 	vc.obls = append(vc.obls, o)
 }
 
+var symRe = regexp.MustCompile(`[A-Za-z_][A-Za-z0-9_.!$]*`)
+
+type declInfo struct {
+	text    string
+	defines string // symbol introduced ("" for assert lines)
+	uses    []string
+	anchor  string
+}
+
+func (vc *VC) declInfos(n int) []declInfo {
+	for len(vc.declCache) < n {
+		i := len(vc.declCache)
+		d := vc.decls[i]
+		di := declInfo{text: d}
+		fields := strings.Fields(d)
+		body := d
+		if len(fields) >= 2 && (fields[0] == "(declare-const" || fields[0] == "(declare-fun" || fields[0] == "(define-fun" || fields[0] == "(declare-sort") {
+			di.defines = strings.TrimRight(fields[1], ")")
+			vc.declNames[di.defines] = true
+			body = d[strings.Index(d, fields[1])+len(fields[1]):]
+		}
+		if k := strings.Index(body, " ; "); k >= 0 && strings.HasPrefix(d, "(declare-const") {
+			body = body[:k]
+		}
+		if k := strings.Index(body, " ;anchor="); k >= 0 {
+			di.anchor = strings.TrimSpace(body[k+9:])
+			body = body[:k]
+			di.text = d[:strings.Index(d, " ;anchor=")]
+		}
+		for _, tok := range symRe.FindAllString(body, -1) {
+			if vc.declNames[tok] && tok != di.defines {
+				di.uses = append(di.uses, tok)
+			}
+		}
+		vc.declCache = append(vc.declCache, di)
+	}
+	return vc.declCache[:n]
+}
+
+// coneOfInfluence keeps the assumptions that share symbols (transitively, also through
+// definitions and anchored axioms) with the goal. Dropping assumptions only weakens the
+// hypothesis, so a proof of the pruned query is a proof of the full one.
+func (vc *VC) coneOfInfluence(o *Obligation, infos []declInfo) []Term {
+	defUses := map[string][]string{}
+	anchored := map[string][]string{}
+	for _, di := range infos {
+		if di.defines != "" && len(di.uses) > 0 {
+			defUses[di.defines] = di.uses
+		}
+		if di.anchor != "" {
+			anchored[di.anchor] = append(anchored[di.anchor], di.uses...)
+		}
+	}
+	syms := map[string]bool{}
+	var add func(s string)
+	add = func(s string) {
+		if syms[s] {
+			return
+		}
+		syms[s] = true
+		for _, u := range defUses[s] {
+			add(u)
+		}
+		for _, u := range anchored[s] {
+			add(u)
+		}
+	}
+	toks := func(e string) []string {
+		var r []string
+		for _, tok := range symRe.FindAllString(e, -1) {
+			if vc.declNames[tok] {
+				r = append(r, tok)
+			}
+		}
+		return r
+	}
+	for _, t := range toks(o.Goal.E) {
+		add(t)
+	}
+	asyms := make([][]string, len(o.Assumes))
+	for i, a := range o.Assumes {
+		asyms[i] = toks(a.E)
+	}
+	inc := make([]bool, len(o.Assumes))
+	for changed := true; changed; {
+		changed = false
+		for i := range o.Assumes {
+			if inc[i] {
+				continue
+			}
+			hit := len(asyms[i]) == 0
+			for _, s := range asyms[i] {
+				if syms[s] {
+					hit = true
+					break
+				}
+			}
+			if hit {
+				inc[i] = true
+				changed = true
+				for _, s := range asyms[i] {
+					add(s)
+				}
+			}
+		}
+	}
+	var res []Term
+	for i, a := range o.Assumes {
+		if inc[i] {
+			res = append(res, a)
+		}
+	}
+	return res
+}
+
+// SMT renders the query with only the declarations it (transitively) needs, so that
+// pure arithmetic goals reach the solvers' specialised tactics.
 func (o *Obligation) SMT(produceModels bool) string {
+	vc := o.vc
+	infos := vc.declInfos(o.NDecl)
+	used := map[string]bool{}
+	mark := func(text string) {
+		for _, tok := range symRe.FindAllString(text, -1) {
+			if vc.declNames[tok] {
+				used[tok] = true
+			}
+		}
+	}
+	assumes := o.Assumes
+	if !o.Cover {
+		assumes = vc.coneOfInfluence(o, infos)
+	}
+	for _, a := range assumes {
+		mark(a.E)
+	}
+	mark(o.Goal.E)
+	include := make([]bool, len(infos))
+	for changed := true; changed; {
+		changed = false
+		for i := len(infos) - 1; i >= 0; i-- {
+			if include[i] {
+				continue
+			}
+			di := infos[i]
+			if di.defines != "" {
+				if used[di.defines] {
+					include[i] = true
+					changed = true
+					for _, u := range di.uses {
+						used[u] = true
+					}
+				}
+				continue
+			}
+			if di.anchor != "" {
+				if used[di.anchor] {
+					include[i] = true
+					changed = true
+					for _, u := range di.uses {
+						used[u] = true
+					}
+				}
+				continue
+			}
+			// axiom: include when all the symbols it talks about are in use
+			all := len(di.uses) > 0
+			for _, u := range di.uses {
+				if !used[u] {
+					all = false
+				}
+			}
+			if all {
+				include[i] = true
+				changed = true
+			}
+		}
+	}
+	var body strings.Builder
+	for i, di := range infos {
+		if include[i] {
+			body.WriteString(di.text)
+			body.WriteString("\n")
+		}
+	}
+	for _, a := range assumes {
+		body.WriteString("(assert ")
+		body.WriteString(a.E)
+		body.WriteString(")\n")
+	}
+	if o.Cover {
+		body.WriteString("(assert " + o.Goal.E + ")\n")
+	} else {
+		body.WriteString("(assert (not " + o.Goal.E + "))\n")
+	}
+	bs := body.String()
+	logic := "ALL"
+	if !strings.Contains(bs, "forall") && !strings.Contains(bs, "exists") && !strings.Contains(bs, "declare-sort") &&
+		!strings.Contains(bs, "declare-fun") && !strings.Contains(bs, "BitVec") && !strings.Contains(bs, "FloatingPoint") &&
+		!strings.Contains(bs, "Array") && !strings.Contains(bs, " Int") && !strings.Contains(bs, "to_int") {
+		logic = "QF_NRA"
+	}
 	var sb strings.Builder
 	if produceModels {
 		sb.WriteString("(set-option :produce-models true)\n")
 	}
-	sb.WriteString("(set-logic ALL)\n")
-	for _, d := range o.vc.decls[:o.NDecl] {
-		sb.WriteString(d)
-		sb.WriteString("\n")
-	}
-	for _, a := range o.Assumes {
-		sb.WriteString("(assert ")
-		sb.WriteString(a.E)
-		sb.WriteString(")\n")
-	}
-	if o.Cover {
-		sb.WriteString("(assert " + o.Goal.E + ")\n")
-	} else {
-		sb.WriteString("(assert (not " + o.Goal.E + "))\n")
-	}
+	sb.WriteString("(set-logic " + logic + ")\n")
+	sb.WriteString(bs)
 	sb.WriteString("(check-sat)\n")
 	if produceModels {
 		sb.WriteString("(get-model)\n")
